@@ -44,7 +44,24 @@ type vfC09Params2 struct {
 	Score *float64 `vgirpc:"score"`
 }
 
+// Parameter-schema twins: two parameter types that DECLARE (ParamsSchemaDeclarer)
+// schemas differing only in field metadata.
+type vfC09TwinP1 struct {
+	X int64 `vgirpc:"x"`
+}
+type vfC09TwinP2 struct {
+	X int64 `vgirpc:"x"`
+}
+
+func vfC09TwinParams(unit string) *arrow.Schema {
+	return arrow.NewSchema([]arrow.Field{{Name: "x", Type: arrow.PrimitiveTypes.Int64,
+		Metadata: arrow.NewMetadata([]string{"unit"}, []string{unit})}}, nil)
+}
+func (vfC09TwinP1) VgiRpcParamsSchema() *arrow.Schema { return vfC09TwinParams("ms") }
+func (vfC09TwinP2) VgiRpcParamsSchema() *arrow.Schema { return vfC09TwinParams("ns") }
+
 type vfC09Bundle struct {
+	ptype  int           // which Go parameter/result types the registration uses (0..2)
 	params *arrow.Schema // expected (hand-written) parameter schema
 	result *arrow.Schema // expected result schema of the Unary kind
 	out    *arrow.Schema
@@ -61,6 +78,7 @@ var vfC09Bundles = []vfC09Bundle{
 		header: arrow.NewSchema([]arrow.Field{{Name: "title", Type: arrow.BinaryTypes.String}}, nil),
 	},
 	{
+		ptype:  1,
 		params: vfI64Schema("x"),
 		result: arrow.NewSchema([]arrow.Field{{Name: "result", Type: arrow.BinaryTypes.String}}, nil),
 		out: arrow.NewSchema([]arrow.Field{
@@ -74,6 +92,7 @@ var vfC09Bundles = []vfC09Bundle{
 		}, nil),
 	},
 	{
+		ptype: 2,
 		params: arrow.NewSchema([]arrow.Field{
 			{Name: "name", Type: arrow.BinaryTypes.String},
 			{Name: "score", Type: arrow.PrimitiveTypes.Float64, Nullable: true},
@@ -91,6 +110,47 @@ var vfC09Bundles = []vfC09Bundle{
 		in:     arrow.NewSchema([]arrow.Field{{Name: "d", Type: &arrow.DictionaryType{IndexType: arrow.PrimitiveTypes.Int16, ValueType: arrow.BinaryTypes.String}, Nullable: true}}, nil),
 		header: arrow.NewSchema(nil, nil),
 	},
+}
+
+// Fingerprint twins: schemas that differ ONLY in something arrow's
+// Schema.Fingerprint() ignores — field metadata, schema-level metadata, the
+// list element's name/nullability. Anything that memoises per-schema work by
+// fingerprint (or compares with Schema.Equal alone) confuses them. Each family
+// has three variants; each variant becomes a bundle (appended after the three
+// ordinary ones, never used by the big spaces) whose output, input and header
+// schema are all that variant.
+var vfC09TwinFamilies = []string{"field-metadata", "schema-metadata", "list-element", "declared-params"}
+var vfC09TwinBase = 3 // index of the first twin bundle; family f variant v = base + 3*f + v
+
+func init() {
+	md := func(k, v string) arrow.Metadata { return arrow.NewMetadata([]string{k}, []string{v}) }
+	ts := func(fmd arrow.Metadata, smd *arrow.Metadata, elem arrow.Field) *arrow.Schema {
+		return arrow.NewSchema([]arrow.Field{
+			{Name: "t", Type: arrow.PrimitiveTypes.Int64, Metadata: fmd},
+			{Name: "l", Type: arrow.ListOfField(elem), Nullable: true},
+		}, smd)
+	}
+	item := arrow.Field{Name: "item", Type: arrow.PrimitiveTypes.Int64, Nullable: true}
+	x, y := md("origin", "x"), md("origin", "y")
+	variants := [][]*arrow.Schema{
+		{ts(md("unit", "ms"), nil, item), ts(md("unit", "ns"), nil, item), ts(arrow.Metadata{}, nil, item)},
+		{ts(arrow.Metadata{}, &x, item), ts(arrow.Metadata{}, &y, item), ts(arrow.Metadata{}, nil, item)},
+		{ts(arrow.Metadata{}, nil, item),
+			ts(arrow.Metadata{}, nil, arrow.Field{Name: "element", Type: arrow.PrimitiveTypes.Int64, Nullable: false}),
+			ts(arrow.Metadata{}, nil, arrow.Field{Name: "item", Type: arrow.PrimitiveTypes.Int64, Nullable: false})},
+	}
+	for _, fam := range variants {
+		for _, sc := range fam {
+			vfC09Bundles = append(vfC09Bundles, vfC09Bundle{ptype: 1, params: vfC09Bundles[1].params, result: vfC09Bundles[1].result,
+				out: sc, in: sc, header: sc})
+		}
+	}
+	// family 3 (two variants): the PARAMETER schema is the twin, everything else is bundle 1's
+	for i, unit := range []string{"ms", "ns"} {
+		b := vfC09Bundles[1]
+		b.ptype, b.params = 3+i, vfC09TwinParams(unit)
+		vfC09Bundles = append(vfC09Bundles, b)
+	}
 }
 
 var vfC09KindNames = []string{"Unary", "UnaryVoid", "Producer", "ProducerWithHeader", "Exchange", "ExchangeWithHeader", "DynamicStreamWithHeader"}
@@ -128,13 +188,17 @@ func vfC09RegP[P any, R any](s *Server, m vfC09Method) {
 }
 
 func vfC09Register(s *Server, m vfC09Method) {
-	switch m.bundle {
+	switch vfC09Bundles[m.bundle].ptype {
 	case 0:
 		vfC09RegP[VfNoParams, int64](s, m)
 	case 1:
 		vfC09RegP[VfXParams, string](s, m)
 	case 2:
 		vfC09RegP[vfC09Params2, VfHeader](s, m)
+	case 3:
+		vfC09RegP[vfC09TwinP1, string](s, m)
+	case 4:
+		vfC09RegP[vfC09TwinP2, string](s, m)
 	}
 }
 
@@ -725,6 +789,34 @@ func TestVerif_C09(t *testing.T) {
 			vfC09Check(x, set, vfC09Config{"svc", "id", "1.2.3"}, true)
 		})
 	}
+
+	// Space "fingerprint-twins": two methods whose explicit schemas differ only in
+	// what Schema.Fingerprint()/Schema.Equal ignore, every ordered pair of
+	// variants x every pair of stream kinds, both registration orders (inside
+	// vfC09Check), and then the OPPOSITE assignment on further fresh servers in
+	// the same process (a process-wide memo keyed by fingerprint is exposed by
+	// whichever of the two comes second).
+	streamKinds := []int{2, 3, 4, 5, 6}
+	venum.Explore(t, venum.Cfg{Name: "fingerprint-twins", Shardable: true}, func(x *venum.X) {
+		fam := x.Choose(len(vfC09TwinFamilies), "family")
+		va := x.Choose(3, "variant-a")
+		vbc := x.Choose(2, "variant-b")
+		vb := (va + 1 + vbc) % 3
+		if fam == 3 { // only two variants
+			if va == 2 || vbc == 1 {
+				x.Outcome("dup")
+				return
+			}
+			vb = 1 - va
+		}
+		ka := streamKinds[x.Choose(len(streamKinds), "kind-a")]
+		kb := streamKinds[x.Choose(len(streamKinds), "kind-b")]
+		ba, bb := vfC09TwinBase+3*fam+va, vfC09TwinBase+3*fam+vb
+		x.Note("twins family=%s a=variant%d/%s b=variant%d/%s", vfC09TwinFamilies[fam], va, vfC09KindNames[ka], vb, vfC09KindNames[kb])
+		c := vfC09Config{service: "svc"}
+		vfC09Check(x, []vfC09Method{{"a", ka, ba}, {"b", kb, bb}}, c, true)
+		vfC09Check(x, []vfC09Method{{"a", ka, bb}, {"b", kb, ba}}, c, true)
+	})
 
 	// Space 4: the hash is the same in a second OS process.
 	list := vfC09CrossList()
